@@ -330,6 +330,41 @@ def rule_table_delimiter(ctx, rep):
                      % (w, method, pattern), loc(model.unit_of(rd), rd.node), witness='item | qty\n' + w)
 
 
+# span token -> what any text it matches must look like (so that the inert spellings named in the property cannot match)
+INERT_SPANS = {
+    'Strikethrough': (r'(?:\\\\)*~~.+~~', 'two tildes, text, two tildes (an isolated ~ is literal)'),
+}
+
+
+def rule_span_inert(ctx, rep):
+    """An isolated ~ stays literal: every text the Strikethrough pattern can match is ~~...~~ (language inclusion;
+    one-character look-arounds are followed, a back-reference is widened to its group)."""
+    import re as _re
+    model = ctx.model
+    rule = 'R-SPAN-INERT'
+    rep.rule(rule, 'inline patterns cannot match the inert spellings (language inclusion)')
+    default = [c for c in ctx.configs() if c.label == 'HtmlRenderer' and not c.options][0]
+    for cname, (spec_rx, what) in sorted(INERT_SPANS.items()):
+        cands = [c for c in default.span_types if getattr(c, 'name', None) == cname]
+        if not cands:
+            rep.note('%s is not in the default span token list' % cname)
+            continue
+        cls = cands[0]
+        pv = Interp(model).class_attr(cls, 'pattern')
+        if not isinstance(pv, RxVal):
+            raise AnalysisError('anchor vanished: %s.pattern is not a regex literal' % cls.short)
+        rep.instance(rule)
+        A = rx.ALPHABET_CORE
+        L = rx.Lang(pv.pattern, pv.flags, mode='full', alphabet=A, name=cls.short + '.pattern', relax_backrefs=True)
+        S = rx.Lang(spec_rx, _re.DOTALL, mode='full', alphabet=A, name='spec:' + cname)
+        w = rx.witness([L], [S], A)
+        rep.obligation(rule, w is None, {'class': cname, 'pattern': pv.pattern, 'must look like': what, 'witness': w})
+        if w is not None:
+            rep.find(rule, cls.short + '.pattern', 'matches-inert-text', 'the %s pattern matches %r, which is not %s: ordinary prose '
+                     'with isolated characters is turned into markup' % (cname, w, what), loc(model.unit_of(cls), cls.node),
+                     witness='a ' + w + ' c')
+
+
 def _is_whole_line(frozen):
     """The frozen subject of a match is an input line itself (not a slice or a stripped copy)."""
     return isinstance(frozen, tuple) and len(frozen) == 3 and frozen[0] == 'src'
@@ -340,6 +375,7 @@ def run(ctx):
     model = ctx.model
     rule_scanner_indent(ctx, rep)
     rule_table_delimiter(ctx, rep)
+    rule_span_inert(ctx, rep)
     rep.rule('R-START-INCL', 'L_match(block pattern) intersect filter is included in the spec language (automata)')
     rep.rule('R-START-ANCHOR', 'block starts apply their pattern with .match')
     rep.rule('R-START-ONLY-IF', 'start returns truthy only if its pattern matched')
@@ -383,6 +419,12 @@ def run(ctx):
     # the core-token scan and InlineCode.find is emptied before every scan (shared with C11 / C05)
     from . import c11
     c11.rule_handoff(ctx, rep, rule='R-HANDOFF')
+    c11.rule_must_refresh(ctx, rep, rule='R-HANDOFF')
+    # a reader that gives up (a pipe on two lines is not yet a table) hands every line back, no more and no fewer:
+    # nothing of the inert text is dropped or parsed twice (shared with C01)
+    from . import c01
+    from .c08 import get_facts
+    c01.rule_progress(ctx, rep, get_facts(ctx))
 
 
 def check_start_language_notes(ctx, cls_short, method, spec_name, rxv):
